@@ -97,18 +97,26 @@ def build_model(ctxbox):
         return o
 
     # --- methods on opaque receivers
+    def not_a_path(recv, method):
+        """pathlib methods on a value that is still the caller's str (cache_dir may be given as str): AttributeError."""
+        if recv is not None and getattr(recv, "typ", None) == "str":
+            raise PyRaise(AttributeError(f"'str' object has no attribute '{method}'"))
+
     def m_joinpath(interp, fn, args, kwargs):
         base = fn.origin[: -len(".joinpath")]
         recv = ctxbox["last_recv"].get(fn.origin)
+        not_a_path(recv, "joinpath")
         d = getattr(recv, "descr", "<cache>") if recv is not None else "<cache>"
         return mk_path(d + "/" + "/".join(descr(a) for a in args))
 
     def m_with_suffix(interp, fn, args, kwargs):
         recv = ctxbox["last_recv"].get(fn.origin)
+        not_a_path(recv, "with_suffix")
         d = getattr(recv, "descr", "<?>") if recv is not None else "<?>"
         return mk_path(with_suffix(d, args[0]))
 
     def m_mkdir(interp, fn, args, kwargs):
+        not_a_path(ctxbox["last_recv"].get(fn.origin), "mkdir")
         M.may_raise(interp, "mkdir")
         ev(interp, "mkdir")
 
